@@ -134,6 +134,9 @@ def check(run: Run) -> None:
     run.rule("C04.R5", "nesting: over all derivations up to 3 levels of parentheses the compiled filter tree equals the derivation's nesting (stack typestate of enter/exitSubfilter)")
     run.rule("C04.R6", "O and G are accepted in either order by the grammar; every listener override names a real rule")
     run.rule("C04.R7", "select `prop:<key>` carries exactly the key")
+    from ..daterules import century_rule
+
+    century_rule(run, model, "C04.R3")
     specs = Specs()
     I = make_interp(model, specs, g)
     NT = _enum(I, model, "NoteType")
